@@ -911,9 +911,9 @@ impl Sim {
         }
         // wait until every new worker has told its thread id (it does so first thing): from here on
         // a thread id that is not known belongs to a thread the simulator does not own
-        let before = g.known_tids.len();
         drop(g);
-        let _ = before;
+        // (inside the simulator: this wait takes real time and must not count as scheduling steps)
+        let _i = InternalSection::new();
         loop {
             let g = self.lock();
             let have = g.workers_registered;
@@ -922,7 +922,9 @@ impl Sim {
             if have >= need {
                 break;
             }
-            thread::yield_now();
+            unsafe {
+                crate::sys::raw6(libc::SYS_sched_yield, 0, 0, 0, 0, 0, 0);
+            }
         }
     }
 
